@@ -345,6 +345,41 @@ func ruleCaretAlign(p *Prog, r *Result) {
 				bad = fmt.Sprintf("%s (%s)", v.Name(), v.String())
 			}
 		}
+		// ... and does not go below the start of the shown text: an error reported at offset 0 (a statement-level
+		// error) in a query with blanks in front re-bases to a negative offset, so the re-based offset is bounded
+		// below by 0 - a merge with the constant 0, or max(.., 0)
+		clamped := false
+		seenC := map[ssa.Value]bool{}
+		var walkC func(v ssa.Value, d int)
+		walkC = func(v ssa.Value, d int) {
+			if seenC[v] || d > 8 {
+				return
+			}
+			seenC[v] = true
+			switch x := v.(type) {
+			case *ssa.Phi:
+				for _, e := range x.Edges {
+					if k, ok := constInt(e); ok && k == 0 {
+						clamped = true
+					}
+					walkC(e, d+1)
+				}
+			case *ssa.Call:
+				if bi, ok := x.Call.Value.(*ssa.Builtin); ok && (bi.Name() == "max" || bi.Name() == "min") {
+					for _, a := range x.Call.Args {
+						if k, ok := constInt(a); ok && k == 0 && bi.Name() == "max" {
+							clamped = true
+						}
+						walkC(a, d+1)
+					}
+				}
+			case *ssa.BinOp:
+				walkC(x.X, d+1)
+				walkC(x.Y, d+1)
+			}
+		}
+		walkC(P, 0)
+		r.add(clamped, "clamp-low", p.Pos(fn.Pos()), "the re-based offset is bounded below by 0 (an offset in front of the shown text puts the caret under the prompt)")
 		r.add(bad == "", "rebase", p.Pos(fn.Pos()), firstNonEmpty(map[bool]string{true: "the offset is re-based by " + bad + ", which is not computed from the trimmed text: a separate count of leading blanks has to agree with strings.TrimSpace on every blank"}[bad != ""], "the offset is re-based by a quantity computed from the trimmed text itself"))
 	}
 	type tp struct {
@@ -2667,6 +2702,93 @@ func ruleCheckOrder(p *Prog, r *Result) {
 		r.add(own == "", p.FName(fn)+"|as-checked", p.Pos(fn.Pos()), firstNonEmpty(map[bool]string{true: "a type constant is written into the announced list at " + own}[own != ""], "the announced column types are the checked ones"))
 	}
 	r.floor("FieldTypeList methods of aggregate plans", nFT, 1)
+	// ... and the sort compares a column by the checked type of the select field it orders by: either the order plan
+	// takes the type from the announced list (FieldTypes[idx]), or - when it asks the order field's own expression -
+	// that expression is the select field itself (handed out by the look-up in the select list), never a second
+	// parse of the ORDER BY text, whose names nobody resolved. One of the two has to hold; each of the two edits
+	// that give them up is harmless while the other still stands
+	if oi := p.MethodByName("FinalOrderPlan", "Init"); oi != nil {
+		fromList := true
+		nT := 0
+		allInstrs(oi, func(in ssa.Instruction) {
+			st, ok := in.(*ssa.Store)
+			if !ok {
+				return
+			}
+			_, f, _, ok := fieldOfAddr(st.Addr)
+			if !ok || f != "orderTypes" {
+				return
+			}
+			for _, ap := range appendsInto(st.Val) {
+				for _, a := range ap.Call.Args[1:] {
+					// the appended element: a one-element slice of a fresh array
+					elemFromList := false
+					mentions(a, func(x ssa.Value) bool {
+						if _, fl, _, ok := loadedField(x); ok && fl == "FieldTypes" {
+							elemFromList = true
+						}
+						return false
+					}, 10)
+					if sl, ok := a.(*ssa.Slice); ok {
+						if al, ok := sl.X.(*ssa.Alloc); ok {
+							for _, sv := range storedInto(al) {
+								nT++
+								okv := false
+								mentions(sv, func(x ssa.Value) bool {
+									if _, fl, _, ok := loadedField(x); ok && fl == "FieldTypes" {
+										okv = true
+									}
+									return false
+								}, 10)
+								if !okv {
+									fromList = false
+								}
+							}
+							continue
+						}
+					}
+					nT++
+					if !elemFromList {
+						fromList = false
+					}
+				}
+			}
+		})
+		fieldIsSelected := true
+		nF := 0
+		for _, fn := range p.Funcs {
+			if fn.Signature.Recv() == nil || typeName(deref(fn.Signature.Recv().Type())) != "Parser" {
+				continue
+			}
+			lookup := p.MethodByName("Parser", "findFieldInSelect")
+			allInstrs(fn, func(in ssa.Instruction) {
+				st, ok := in.(*ssa.Store)
+				if !ok {
+					return
+				}
+				o, f, _, ok := fieldOfAddr(st.Addr)
+				if !ok || o == nil || o.Obj().Name() != "OrderField" || f != "Field" {
+					return
+				}
+				nF++
+				okv := false
+				v := st.Val
+				if ex, isEx := v.(*ssa.Extract); isEx {
+					if c, isC := ex.Tuple.(*ssa.Call); isC && lookup != nil && c.Call.StaticCallee() == lookup {
+						okv = true
+					}
+				}
+				if !okv {
+					fieldIsSelected = false
+				}
+			})
+		}
+		if nT > 0 && nF > 0 {
+			r.add(fromList || fieldIsSelected, "(*FinalOrderPlan).Init|order-types", p.Pos(oi.Pos()), fmt.Sprintf("the comparison type of an order column is the checked type of the select field: taken from FieldTypes (%v), or from an order field that is the select field itself (%v)", fromList, fieldIsSelected))
+		} else {
+			r.undecided("anchor: the order types / order fields could not be traced (%d type stores, %d field stores)", nT, nF)
+		}
+	}
 }
 
 // ---------------- NAMEOWNER ----------------
@@ -2741,6 +2863,52 @@ func ruleNameOwner(p *Prog, r *Result) {
 		})
 	}
 	r.floor("reads of the field caches by name in the projection", n, 2)
+	// a name stands for the FIRST field that carries it, in every look-up (the checker, ORDER BY, GROUP BY and the
+	// projection's cache agree on that): a look-up that scans FieldNames returns at its first match by construction;
+	// one that indexes the names in a map first must not let a later field overwrite an earlier one - the update is
+	// made only behind `the name is not in the map yet`
+	nIdx := 0
+	for _, fn := range p.Funcs {
+		allInstrs(fn, func(in ssa.Instruction) {
+			mu, ok := in.(*ssa.MapUpdate)
+			if !ok {
+				return
+			}
+			fromNames := false
+			mentions(mu.Key, func(x ssa.Value) bool {
+				if ia, ok := x.(*ssa.IndexAddr); ok {
+					if _, f, _, ok := loadedField(ia.X); ok && f == "FieldNames" {
+						fromNames = true
+					}
+				}
+				// range over the slice: the element is extracted from a Next on a range iterator of FieldNames
+				if _, f, _, ok := loadedField(x); ok && f == "FieldNames" {
+					fromNames = true
+				}
+				return false
+			}, 8)
+			if !fromNames {
+				return
+			}
+			nIdx++
+			guarded := false
+			for _, a := range dominatingAtoms(in.Block()) {
+				ex, ok := a.X.(*ssa.Extract)
+				if !ok || ex.Index != 1 {
+					continue
+				}
+				lk, ok := ex.Tuple.(*ssa.Lookup)
+				if !ok || !lk.CommaOk {
+					continue
+				}
+				if bv, isB := constBool(a.Y); isB && ((a.Op == token.EQL) == bv) == false {
+					guarded = true
+				}
+			}
+			r.add(guarded, fmt.Sprintf("%s|first-wins#%d", p.FName(fn), nIdx), p.InstrPos(in), "an index of the field names keeps the first field of a name: the entry is written only when the name is not in the map yet")
+		})
+	}
+	r.note("name_indexes_built", nIdx)
 }
 
 // ---------------- AGGRDETECT ----------------
